@@ -366,7 +366,7 @@ theorem stackInv2_tail {N : Str → Prop} {sh : Shape} {dim : Nat} {ded : List S
 
 theorem contentM_step {N : Str → Prop} {sh : Shape} {dim : Nat} {st st' : St} {line : Nat} {s : Str}
     (hG : Good2 N sh dim st.deduct st.stack st.node) (h : contentM st line s = .ok st') : Step N sh dim st st' := by
-  obtain ⟨shape, d, stack, node, links, deduct, unm⟩ := st
+  obtain ⟨shape, d, wd, stack, node, links, deduct, unm⟩ := st
   obtain ⟨h4, hn⟩ := hG
   simp only at h4 hn
   cases stack with
@@ -555,7 +555,7 @@ theorem getD_sorted_bounded {ne : Nat} {patches : List (List Nat)}
 
 theorem closeTop_step {N : Str → Prop} {sh : Shape} {dim : Nat} {st st' : St} {line : Nat}
     (hG : Good2 N sh dim st.deduct st.stack st.node) (h : closeTop st line = .ok st') : Step N sh dim st st' := by
-  obtain ⟨shape, d, stack, node, links, deduct, unm⟩ := st
+  obtain ⟨shape, d, wd, stack, node, links, deduct, unm⟩ := st
   obtain ⟨h4, hn⟩ := hG
   simp only at h4 hn
   cases stack with
@@ -1003,7 +1003,7 @@ theorem openM_step {N : Str → Prop} {sh : Shape} {dim : Nat} {st st' : St} {li
     (hN0 : N []) (hNm : ∀ k v, attrOf m k = some v → N v)
     (h : openM st line m = .ok st') :
     st'.shape = st.shape ∧ st'.dim = st.dim ∧ Good2 N sh dim st'.deduct st'.stack st'.node := by
-  obtain ⟨shape, d, stack, node, links, deduct, unm⟩ := st
+  obtain ⟨shape, d, wd, stack, node, links, deduct, unm⟩ := st
   obtain ⟨h4, hn⟩ := hG
   simp only at hs hd h4 hn ⊢
   subst hs hd
@@ -1313,9 +1313,9 @@ theorem scanLoop_inv2 {N : Str → Prop} {sh : Shape} {dim : Nat} (hN0 : N []) (
       | exact ih hN' _ _ _ _ (openM_inv2 hN0 (hNr _ (by assumption)) hI (by assumption)) h
       | (simp only [Except.ok.injEq] at h; subst h; exact closeTop_inv2 hI (by assumption))
 
-theorem Inv2_init (N : Str → Prop) (sh : Shape) (dim : Nat) :
-    Inv2 N sh dim { shape := sh, dim := dim, stack := [Frame.root],
-                    node := { mesh := none, parts := [], partitions := [] },
+theorem Inv2_init (N : Str → Prop) (sh : Shape) (dim wdim : Nat) :
+    Inv2 N sh dim { shape := sh, dim := dim, wdim := wdim, stack := [Frame.root],
+                    node := { mesh := none, parts := [], partitions := [], wdim := wdim },
                     links := [], deduct := [], unmodelled := false } := by
   refine ⟨rfl, rfl, ⟨trivial, trivial, trivial⟩, ?_⟩
   exact { mesh64 := fun _ hm => by cases hm
@@ -1456,7 +1456,7 @@ theorem Inv3_of {st st' : St} (h : Inv3 st) (hs : rootBottom st'.stack) (ho : op
 
 theorem contentM_inv3 {st st' : St} {line : Nat} {s : Str} (hI : Inv3 st) (h : contentM st line s = .ok st') :
     Inv3 st' := by
-  obtain ⟨shape, d, stack, node, links, deduct, unm⟩ := st
+  obtain ⟨shape, d, wd, stack, node, links, deduct, unm⟩ := st
   unfold contentM at h
   repeat' (first | split at h | (simp only at h; split at h))
   all_goals first
@@ -1464,11 +1464,11 @@ theorem contentM_inv3 {st st' : St} {line : Nat} {s : Str} (hI : Inv3 st) (h : c
     | (simp [gErr] at h; done)
     | (simp only [Except.ok.injEq] at h; subst h; simp only [Inv3] at hI ⊢; simp_all [rootBottom, openPart]; done)
 
-theorem closePart_inv3 {shape : Shape} {d : Nat} {p : PartSt} {rest : List Frame} {node : Node}
+theorem closePart_inv3 {shape : Shape} {d wd : Nat} {p : PartSt} {rest : List Frame} {node : Node}
     {links : List (Str × Str)} {deduct : List Str} {unm : Bool} {part : Part}
     (hpt : part.hasTopo = (p.topoType != .none))
-    (hI : Inv3 ⟨shape, d, Frame.part p :: rest, node, links, deduct, unm⟩) :
-    Inv3 ⟨shape, d, rest, { node with parts := mapInsert strLt p.name part node.parts }, links, deduct, unm⟩ := by
+    (hI : Inv3 ⟨shape, d, wd, Frame.part p :: rest, node, links, deduct, unm⟩) :
+    Inv3 ⟨shape, d, wd, rest, { node with parts := mapInsert strLt p.name part node.parts }, links, deduct, unm⟩ := by
   obtain ⟨hr, hd⟩ := hI
   simp only [rootBottom] at hr
   subst hr
@@ -1493,7 +1493,7 @@ theorem closePart_inv3 {shape : Shape} {d : Nat} {p : PartSt} {rest : List Frame
     simp [openPart] at hx
 
 theorem closeTop_inv3 {st st' : St} {line : Nat} (hI : Inv3 st) (h : closeTop st line = .ok st') : Inv3 st' := by
-  obtain ⟨shape, d, stack, node, links, deduct, unm⟩ := st
+  obtain ⟨shape, d, wd, stack, node, links, deduct, unm⟩ := st
   unfold closeTop at h
   repeat' (first | split at h | (simp only at h; split at h))
   all_goals first
@@ -1511,7 +1511,7 @@ theorem push_inv3 {st1 st' : St} {line : Nat} {c : Bool} (hI : Inv3 st1)
 
 theorem openM_inv3 {st st' : St} {line : Nat} {m : Markup} (hI : Inv3 st) (h : openM st line m = .ok st') :
     Inv3 st' := by
-  obtain ⟨shape, d, stack, node, links, deduct, unm⟩ := st
+  obtain ⟨shape, d, wd, stack, node, links, deduct, unm⟩ := st
   cases stack with
   | nil => simp [openM, gErr] at h
   | cons f rest =>
@@ -1692,9 +1692,9 @@ theorem scanLoop_inv3 (lines : List Str) :
       | exact ih _ _ _ _ (openM_inv3 hI (by assumption)) h
       | (simp only [Except.ok.injEq] at h; subst h; exact closeTop_inv3 hI (by assumption))
 
-theorem Inv3_init (sh : Shape) (dim : Nat) :
-    Inv3 { shape := sh, dim := dim, stack := [Frame.root],
-           node := { mesh := none, parts := [], partitions := [] },
+theorem Inv3_init (sh : Shape) (dim wdim : Nat) :
+    Inv3 { shape := sh, dim := dim, wdim := wdim, stack := [Frame.root],
+           node := { mesh := none, parts := [], partitions := [], wdim := wdim },
            links := [], deduct := [], unmodelled := false } := by
   refine ⟨rfl, ?_, ?_, ?_⟩
   · intro _ hp; cases hp
@@ -1830,14 +1830,14 @@ theorem deductTopo_total {m : Mesh} {p : Part}
 /-- the deduced topology of a mesh part whose mapping indices are entities of a well-formed root mesh is a
     well-formed topology of the part: one tuple per cell, parent tuple width, entries are positions in the vertex
     mapping -/
-theorem deductTopo_wf {sh : Shape} {dim : Nat} {m : Mesh} {p : Part} {t : List (List (List Nat))}
-    (hm : m.wf sh dim = true) (h : deductTopo m p = some t)
+theorem deductTopo_wf {sh : Shape} {dim wdim : Nat} {m : Mesh} {p : Part} {t : List (List (List Nat))}
+    (hm : m.wf sh dim wdim = true) (h : deductTopo m p = some t)
     (hlen : ∀ d, d ≤ dim → (p.maps.getD d []).length = p.sizes.getD d 0)
     (hrange : ∀ d, ∀ i ∈ p.maps.getD d [], i < m.sizes.getD d 0) :
     t.length = dim ∧ ∀ i, i < dim →
       (t.getD i []).length = p.sizes.getD (i + 1) 0 ∧
       ∀ tup ∈ t.getD i [], tup.length = nverts sh (i + 1) ∧ ∀ x ∈ tup, x < p.sizes.getD 0 0 := by
-  obtain ⟨-, -, -, htl, htp⟩ := (Mesh.wf_iff sh dim m).1 hm
+  obtain ⟨-, -, -, htl, htp⟩ := (Mesh.wf_iff sh dim wdim m).1 hm
   obtain ⟨h1, h2⟩ := deductTopo_spec h
   rw [htl] at h1 h2
   refine ⟨h1, ?_⟩
@@ -2004,12 +2004,13 @@ structure NodeOk3 (N : Str → Prop) (sh : Shape) (dim : Nat) (n : Node) : Prop 
 
 /-- an accepted `parseBody` run: the node satisfies `NodeOk3`; the parts that are not on the linker's deduction
     list have no entity count of zero below a non-zero one -/
-theorem parseBody_node_ok {N : Str → Prop} {sh sh' : Shape} {dim dim' : Nat} {m : Markup} {iline : Nat}
+theorem parseBody_node_ok {N : Str → Prop} {sh sh' : Shape} {dim dim' wdim : Nat} {m : Markup} {iline : Nat}
     {rest : List Str} {n : Node} (hN0 : N []) (hN : LinesN N rest)
-    (h : parseBody sh dim m iline rest = .ok sh' dim' n) :
+    (h : parseBody sh dim wdim m iline rest = .ok sh' dim' n) :
     sh' = sh ∧ dim' = dim ∧ NodeOk3 N sh dim n ∧ mapOutOfRange n = false ∧
     ∃ st : St, scanLoop meshClient rest iline [m.name]
-        { shape := sh, dim := dim, stack := [Frame.root], node := { mesh := none, parts := [], partitions := [] },
+        { shape := sh, dim := dim, wdim := wdim, stack := [Frame.root],
+          node := { mesh := none, parts := [], partitions := [], wdim := wdim },
           links := [], deduct := [], unmodelled := false } = .ok st ∧
       n.charts = st.node.charts ∧ (n.charts = [] → st.links = []) ∧
       (∀ np ∈ n.parts, np.1 ∉ st.deduct →
@@ -2018,7 +2019,7 @@ theorem parseBody_node_ok {N : Str → Prop} {sh sh' : Shape} {dim dim' : Nat} {
       ∀ np ∈ n.parts, np.1 ∈ st.deduct → np.2.hasTopo = true := by
   have hmwf := fun msh hm => parseBody_mesh_wf' (msh := msh) h hm
   obtain ⟨rfl, rfl, st, n1, hscan, _, hl, hmap, hd⟩ := parseBody_ok_run h
-  obtain ⟨_, _, hstack, hn⟩ := scanLoop_inv2 hN0 _ hN _ _ _ _ (Inv2_init N _ _) hscan
+  obtain ⟨_, _, hstack, hn⟩ := scanLoop_inv2 hN0 _ hN _ _ _ _ (Inv2_init N _ _ _) hscan
   obtain ⟨l1, l2, l3⟩ := resolveLinks_fields _ _ _ hl
   obtain ⟨d1, d2, d3⟩ := resolveDeduct_fields _ _ _ hd
   obtain ⟨lk, lm⟩ := resolveLinks_mem _ _ _ hl
@@ -2097,32 +2098,32 @@ theorem parseBody_node_ok {N : Str → Prop} {sh sh' : Shape} {dim dim' : Nat} {
   · intro np' hnp' hin
     obtain ⟨np, hnp, e1, c, t, e2, -, -, -⟩ := hfrom np' hnp'
     rw [e2]
-    exact (scanLoop_inv3 _ _ _ _ _ (Inv3_init _ _) hscan).2.has np hnp (by rw [← e1]; exact hin)
+    exact (scanLoop_inv3 _ _ _ _ _ (Inv3_init _ _ _) hscan).2.has np hnp (by rw [← e1]; exact hin)
 
 end S2
 
 /-! ### the theorems -/
 
-theorem parseBody_parts_wf' {sh sh' : Shape} {dim dim' : Nat} {m : Markup} {iline : Nat} {rest : List Str}
-    {n : Node} (h : parseBody sh dim m iline rest = .ok sh' dim' n) :
+theorem parseBody_parts_wf' {sh sh' : Shape} {dim dim' wdim : Nat} {m : Markup} {iline : Nat} {rest : List Str}
+    {n : Node} (h : parseBody sh dim wdim m iline rest = .ok sh' dim' n) :
     ∀ np ∈ n.parts, Part.wf sh' dim' np.2 := by
   obtain ⟨rfl, rfl, hn, _⟩ := S2.parseBody_node_ok (N := fun _ => True) trivial (fun _ _ _ _ _ _ _ => trivial) h
   exact fun np hnp => (hn.parts np hnp).1
 
-theorem parseBody_partitions_wf' {sh sh' : Shape} {dim dim' : Nat} {m : Markup} {iline : Nat} {rest : List Str}
-    {n : Node} (h : parseBody sh dim m iline rest = .ok sh' dim' n) :
+theorem parseBody_partitions_wf' {sh sh' : Shape} {dim dim' wdim : Nat} {m : Markup} {iline : Nat} {rest : List Str}
+    {n : Node} (h : parseBody sh dim wdim m iline rest = .ok sh' dim' n) :
     ∀ p ∈ n.partitions, p.wf := by
   obtain ⟨rfl, rfl, hn, _⟩ := S2.parseBody_node_ok (N := fun _ => True) trivial (fun _ _ _ _ _ _ _ => trivial) h
   exact fun p hp => (hn.partitions p hp).1
 
 /-- parser soundness for mesh parts (general mesh type; `reparse` goes through `parseBody`) -/
-theorem parseBody_parts_wf (sh : Shape) (dim : Nat) (m : Markup) (iline : Nat) (rest : List Str) (n : Node) :
-    parseBody sh dim m iline rest = .ok sh dim n → ∀ np ∈ n.parts, Part.wf sh dim np.2 :=
+theorem parseBody_parts_wf (sh : Shape) (dim wdim : Nat) (m : Markup) (iline : Nat) (rest : List Str) (n : Node) :
+    parseBody sh dim wdim m iline rest = .ok sh dim n → ∀ np ∈ n.parts, Part.wf sh dim np.2 :=
   fun h => parseBody_parts_wf' h
 
 /-- parser soundness for partitions (general mesh type) -/
-theorem parseBody_partitions_wf (sh : Shape) (dim : Nat) (m : Markup) (iline : Nat) (rest : List Str) (n : Node) :
-    parseBody sh dim m iline rest = .ok sh dim n → ∀ p ∈ n.partitions, p.wf :=
+theorem parseBody_partitions_wf (sh : Shape) (dim wdim : Nat) (m : Markup) (iline : Nat) (rest : List Str) (n : Node) :
+    parseBody sh dim wdim m iline rest = .ok sh dim n → ∀ p ∈ n.partitions, p.wf :=
   fun h => parseBody_partitions_wf' h
 
 /-- parser soundness for mesh parts: in an accepted file every mesh part has exactly the declared number of
@@ -2147,8 +2148,8 @@ theorem parseMeshFile_partitions_wf (text : Str) (sh : Shape) (dim : Nat) (n : N
     | (cases h; done)
     | exact parseBody_partitions_wf' h
 
-theorem reparse_parts_wf (sh sh' : Shape) (dim dim' : Nat) (text : Str) (n : Node) :
-    reparse sh dim text = .ok sh' dim' n → ∀ np ∈ n.parts, Part.wf sh' dim' np.2 := by
+theorem reparse_parts_wf (sh sh' : Shape) (dim dim' wdim : Nat) (text : Str) (n : Node) :
+    reparse sh dim wdim text = .ok sh' dim' n → ∀ np ∈ n.parts, Part.wf sh' dim' np.2 := by
   intro h
   unfold reparse at h
   repeat' split at h
@@ -2156,8 +2157,8 @@ theorem reparse_parts_wf (sh sh' : Shape) (dim dim' : Nat) (text : Str) (n : Nod
     | (cases h; done)
     | exact parseBody_parts_wf' h
 
-theorem reparse_partitions_wf (sh sh' : Shape) (dim dim' : Nat) (text : Str) (n : Node) :
-    reparse sh dim text = .ok sh' dim' n → ∀ p ∈ n.partitions, p.wf := by
+theorem reparse_partitions_wf (sh sh' : Shape) (dim dim' wdim : Nat) (text : Str) (n : Node) :
+    reparse sh dim wdim text = .ok sh' dim' n → ∀ p ∈ n.partitions, p.wf := by
   intro h
   unfold reparse at h
   repeat' split at h
@@ -2185,8 +2186,8 @@ theorem parseMeshFile_mapping_nonempty {text : Str} {sh : Shape} {dim : Nat} {n 
 
 /-- `mapOutOfRange` spelled out: every mapping index of every mesh part is an entity index of the root mesh -/
 theorem mapOutOfRange_false_iff (m : Mesh) (parts : List (Str × Part)) (pts : List Partition)
-    (chs : List (Str × Chart) := []) :
-    mapOutOfRange ⟨some m, parts, pts, chs⟩ = false ↔
+    (chs : List (Str × Chart) := []) (wdim : Nat := 0) :
+    mapOutOfRange ⟨some m, parts, pts, chs, wdim⟩ = false ↔
       ∀ np ∈ parts, ∀ d, ∀ i ∈ np.2.maps.getD d [], i < m.sizes.getD d 0 := by
   show (parts.any (fun np => np.2.maps.zipIdx.any (fun (idx, d) => idx.any (fun i => i ≥ m.sizes.getD d 0)))) = false
     ↔ _
@@ -2198,12 +2199,12 @@ theorem mapOutOfRange_false_iff (m : Mesh) (parts : List (Str × Part)) (pts : L
     rw [(zipIdx_any_ge_false_iff np.2.maps (fun d => m.sizes.getD d 0)).2 (h np hnp)]
     simp
 
-theorem mapOutOfRange_nomesh (parts : List (Str × Part)) (pts : List Partition) (chs : List (Str × Chart) := []) :
-    mapOutOfRange ⟨none, parts, pts, chs⟩ = false := rfl
+theorem mapOutOfRange_nomesh (parts : List (Str × Part)) (pts : List Partition) (chs : List (Str × Chart) := []) (wdim : Nat := 0) :
+    mapOutOfRange ⟨none, parts, pts, chs, wdim⟩ = false := rfl
 
 /-- an accepted `parseBody` run (any markup): the node invariant and the linker's range check -/
-theorem parseBody_node_ok' {sh sh' : Shape} {dim dim' : Nat} {m : Markup} {iline : Nat} {rest : List Str}
-    {n : Node} (h : parseBody sh dim m iline rest = .ok sh' dim' n) :
+theorem parseBody_node_ok' {sh sh' : Shape} {dim dim' wdim : Nat} {m : Markup} {iline : Nat} {rest : List Str}
+    {n : Node} (h : parseBody sh dim wdim m iline rest = .ok sh' dim' n) :
     S2.NodeOk3 (fun _ => True) sh' dim' n ∧ mapOutOfRange n = false := by
   obtain ⟨rfl, rfl, hn, hmap, _⟩ :=
     S2.parseBody_node_ok (N := fun _ => True) trivial (fun _ _ _ _ _ _ _ => trivial) h
@@ -2218,8 +2219,8 @@ theorem parseMeshFile_node_ok' {text : Str} {sh : Shape} {dim : Nat} {n : Node}
     | (cases h; done)
     | exact parseBody_node_ok' h
 
-theorem reparse_node_ok' {text : Str} {sh sh' : Shape} {dim dim' : Nat} {n : Node}
-    (h : reparse sh dim text = .ok sh' dim' n) :
+theorem reparse_node_ok' {text : Str} {sh sh' : Shape} {dim dim' wdim : Nat} {n : Node}
+    (h : reparse sh dim wdim text = .ok sh' dim' n) :
     S2.NodeOk3 (fun _ => True) sh' dim' n ∧ mapOutOfRange n = false := by
   unfold reparse at h
   repeat' split at h
@@ -2238,13 +2239,13 @@ theorem parseMeshFile_mapping_lt {text : Str} {sh : Shape} {dim : Nat} {n : Node
     (h : parseMeshFile text = .ok sh dim n) (hm : n.mesh = some m) :
     ∀ np ∈ n.parts, ∀ d, ∀ i ∈ np.2.maps.getD d [], i < m.sizes.getD d 0 := by
   have hr := parseMeshFile_mapping_in_range h
-  obtain ⟨mesh, parts, pts, chs⟩ := n
+  obtain ⟨mesh, parts, pts, chs, wd⟩ := n
   simp only at hm
   subst hm
-  exact (mapOutOfRange_false_iff m parts pts chs).1 hr
+  exact (mapOutOfRange_false_iff m parts pts chs wd).1 hr
 
-theorem reparse_mapping_in_range {text : Str} {sh sh' : Shape} {dim dim' : Nat} {n : Node}
-    (h : reparse sh dim text = .ok sh' dim' n) : mapOutOfRange n = false :=
+theorem reparse_mapping_in_range {text : Str} {sh sh' : Shape} {dim dim' wdim : Nat} {n : Node}
+    (h : reparse sh dim wdim text = .ok sh' dim' n) : mapOutOfRange n = false :=
   (reparse_node_ok' h).2
 
 /-- **declared element count of a partition**: the patches of an accepted partition hold exactly the declared
@@ -2263,7 +2264,7 @@ theorem closeTop_partition_flags {st st' : St} {line : Nat} {name : Str} {prio l
     (∀ b ∈ hv, b = true) ∧ (patches.map List.length).sum = ne ∧
       st' = { st with stack := rest, node := { st.node with partitions := st.node.partitions ++
         [{ name := name, prio := prio, level := level, nr := nr, ne := ne, patches := patches }] } } := by
-  obtain ⟨shape, d, stack, node, links, deduct, unm⟩ := st
+  obtain ⟨shape, d, wd, stack, node, links, deduct, unm⟩ := st
   simp only at hs
   subst hs
   simp only [closeTop] at h
@@ -2286,7 +2287,7 @@ theorem openM_patch_flag {st st' : St} {line : Nat} {m : Markup} {name : Str} {p
     (hs : st.stack = Frame.partition name prio level nr ne patches hv :: rest)
     (h : openM st line m = .ok st') :
     ∃ rank, attrOf m "rank" = some rank ∧ ∃ r, readIndex rank = some r ∧ r < nr ∧ hv.getD r false = false := by
-  obtain ⟨shape, d, stack, node, links, deduct, unm⟩ := st
+  obtain ⟨shape, d, wd, stack, node, links, deduct, unm⟩ := st
   simp only at hs
   subst hs
   simp only [openM] at h
@@ -2587,7 +2588,7 @@ theorem parseMeshFile_decomp {text : Str} {sh : Shape} {dim : Nat} {n : Node}
     (h : parseMeshFile text = .ok sh dim n) :
     ∃ m iline rest sd wd, readRoot (splitLines text) 0 = .ok (m, iline, rest) ∧
       rootType iline m = .ok (some (sh, sd, wd)) ∧
-      supported sh sd wd = true ∧ parseBody sh sd.toNat m iline rest = .ok sh dim n := by
+      supported sh sd wd = true ∧ parseBody sh sd.toNat wd.toNat m iline rest = .ok sh dim n := by
   unfold parseMeshFile at h
   split at h
   · cases h
@@ -2608,9 +2609,10 @@ end S2
 /-! ### the linker's deduction list, seen from the text -/
 
 /-- the linker's deduction list of a `parseBody` run: the names of the `topology="parent"` mesh parts -/
-def deductOfBody (sh : Shape) (dim : Nat) (m : Markup) (iline : Nat) (rest : List Str) : List Str :=
+def deductOfBody (sh : Shape) (dim wdim : Nat) (m : Markup) (iline : Nat) (rest : List Str) : List Str :=
   match scanLoop meshClient rest iline [m.name]
-      { shape := sh, dim := dim, stack := [Frame.root], node := { mesh := none, parts := [], partitions := [] },
+      { shape := sh, dim := dim, wdim := wdim, stack := [Frame.root],
+          node := { mesh := none, parts := [], partitions := [], wdim := wdim },
         links := [], deduct := [], unmodelled := false } with
   | .ok st => st.deduct
   | .error _ => []
@@ -2620,21 +2622,21 @@ def deductNames (text : Str) : List Str :=
   match readRoot (splitLines text) 0 with
   | .ok (m, iline, rest) =>
     match rootType iline m with
-    | .ok (some (sh, sd, _)) => deductOfBody sh sd.toNat m iline rest
+    | .ok (some (sh, sd, wd)) => deductOfBody sh sd.toNat wd.toNat m iline rest
     | _ => []
   | .error _ => []
 
 /-- the same for the second-generation parse with a fixed mesh type -/
-def deductNamesAs (sh : Shape) (dim : Nat) (text : Str) : List Str :=
+def deductNamesAs (sh : Shape) (dim wdim : Nat) (text : Str) : List Str :=
   match readRoot (splitLines text) 0 with
-  | .ok (m, iline, rest) => deductOfBody sh dim m iline rest
+  | .ok (m, iline, rest) => deductOfBody sh dim wdim m iline rest
   | .error _ => []
 
 /-- mesh parts whose topology was not deducted by the linker: no entity count of zero below a non-zero one (if
     the part has a topology), empty index sets (if it has none) -/
-theorem parseBody_parts_nonded {sh sh' : Shape} {dim dim' : Nat} {m : Markup} {iline : Nat} {rest : List Str}
-    {n : Node} (h : parseBody sh dim m iline rest = .ok sh' dim' n) :
-    ∀ np ∈ n.parts, np.1 ∉ deductOfBody sh dim m iline rest →
+theorem parseBody_parts_nonded {sh sh' : Shape} {dim dim' wdim : Nat} {m : Markup} {iline : Nat} {rest : List Str}
+    {n : Node} (h : parseBody sh dim wdim m iline rest = .ok sh' dim' n) :
+    ∀ np ∈ n.parts, np.1 ∉ deductOfBody sh dim wdim m iline rest →
       (np.2.hasTopo = true → zeroBelow np.2.sizes = false) ∧ np.2.noTopoEmpty := by
   obtain ⟨_, _, _, _, st, hscan, _, _, hz, _⟩ :=
     S2.parseBody_node_ok (N := fun _ => True) trivial (fun _ _ _ _ _ _ _ => trivial) h
@@ -2645,8 +2647,8 @@ theorem parseBody_parts_nonded {sh sh' : Shape} {dim dim' : Nat} {m : Markup} {i
 /-- **a mesh part without topology has empty index sets** — for every part of every accepted file: a part on
     the linker's deduction list was declared `topology="parent"` (no two `<MeshPart>` frames are open at once and
     part names are unique), so it has a topology -/
-theorem parseBody_parts_noTopoEmpty {sh sh' : Shape} {dim dim' : Nat} {m : Markup} {iline : Nat}
-    {rest : List Str} {n : Node} (h : parseBody sh dim m iline rest = .ok sh' dim' n) :
+theorem parseBody_parts_noTopoEmpty {sh sh' : Shape} {dim dim' wdim : Nat} {m : Markup} {iline : Nat}
+    {rest : List Str} {n : Node} (h : parseBody sh dim wdim m iline rest = .ok sh' dim' n) :
     ∀ np ∈ n.parts, np.2.noTopoEmpty := by
   obtain ⟨_, _, _, _, st, _, _, _, hz, _, hd⟩ :=
     S2.parseBody_node_ok (N := fun _ => True) trivial (fun _ _ _ _ _ _ _ => trivial) h
@@ -2659,8 +2661,8 @@ theorem parseBody_parts_noTopoEmpty {sh sh' : Shape} {dim dim' : Nat} {m : Marku
 
 /-- every mesh part with a topology (`topology="full"` or deducted from `topology="parent"`): no entity count of
     zero below a non-zero one -/
-theorem parseBody_parts_no_zero_below_all {sh sh' : Shape} {dim dim' : Nat} {m : Markup} {iline : Nat}
-    {rest : List Str} {n : Node} (h : parseBody sh dim m iline rest = .ok sh' dim' n) :
+theorem parseBody_parts_no_zero_below_all {sh sh' : Shape} {dim dim' wdim : Nat} {m : Markup} {iline : Nat}
+    {rest : List Str} {n : Node} (h : parseBody sh dim wdim m iline rest = .ok sh' dim' n) :
     ∀ np ∈ n.parts, np.2.hasTopo = true → zeroBelow np.2.sizes = false := by
   obtain ⟨_, _, _, _, st, _, _, _, _, hz, _⟩ :=
     S2.parseBody_node_ok (N := fun _ => True) trivial (fun _ _ _ _ _ _ _ => trivial) h
@@ -2685,9 +2687,9 @@ theorem parseMeshFile_parts_no_zero_below {text : Str} {sh : Shape} {dim : Nat} 
     ∀ np ∈ n.parts, np.1 ∉ deductNames text → np.2.hasTopo = true → zeroBelow np.2.sizes = false :=
   fun np hnp hni => (parseMeshFile_parts_nonded h np hnp hni).1
 
-theorem reparse_parts_no_zero_below {text : Str} {sh sh' : Shape} {dim dim' : Nat} {n : Node}
-    (h : reparse sh dim text = .ok sh' dim' n) :
-    ∀ np ∈ n.parts, np.1 ∉ deductNamesAs sh dim text → np.2.hasTopo = true → zeroBelow np.2.sizes = false := by
+theorem reparse_parts_no_zero_below {text : Str} {sh sh' : Shape} {dim dim' wdim : Nat} {n : Node}
+    (h : reparse sh dim wdim text = .ok sh' dim' n) :
+    ∀ np ∈ n.parts, np.1 ∉ deductNamesAs sh dim wdim text → np.2.hasTopo = true → zeroBelow np.2.sizes = false := by
   unfold reparse at h
   split at h
   · cases h
@@ -2708,8 +2710,8 @@ theorem parseMeshFile_parts_no_zero_below_all {text : Str} {sh : Shape} {dim : N
   obtain ⟨m, iline, rest, sd, wd, _, _, _, hbody⟩ := S2.parseMeshFile_decomp h
   exact parseBody_parts_no_zero_below_all hbody
 
-theorem reparse_parts_no_zero_below_all {text : Str} {sh sh' : Shape} {dim dim' : Nat} {n : Node}
-    (h : reparse sh dim text = .ok sh' dim' n) :
+theorem reparse_parts_no_zero_below_all {text : Str} {sh sh' : Shape} {dim dim' wdim : Nat} {n : Node}
+    (h : reparse sh dim wdim text = .ok sh' dim' n) :
     ∀ np ∈ n.parts, np.2.hasTopo = true → zeroBelow np.2.sizes = false := by
   unfold reparse at h
   split at h
@@ -2724,8 +2726,8 @@ theorem parseMeshFile_parts_noTopoEmpty {text : Str} {sh : Shape} {dim : Nat} {n
   obtain ⟨m, iline, rest, sd, wd, _, _, _, hbody⟩ := S2.parseMeshFile_decomp h
   exact parseBody_parts_noTopoEmpty hbody
 
-theorem reparse_parts_noTopoEmpty {text : Str} {sh sh' : Shape} {dim dim' : Nat} {n : Node}
-    (h : reparse sh dim text = .ok sh' dim' n) : ∀ np ∈ n.parts, np.2.noTopoEmpty := by
+theorem reparse_parts_noTopoEmpty {text : Str} {sh sh' : Shape} {dim dim' wdim : Nat} {n : Node}
+    (h : reparse sh dim wdim text = .ok sh' dim' n) : ∀ np ∈ n.parts, np.2.noTopoEmpty := by
   unfold reparse at h
   split at h
   · cases h
@@ -2767,8 +2769,8 @@ theorem parseMeshFile_printable (text : Str) (sh : Shape) (dim : Nat) (n : Node)
     (h : parseMeshFile text = .ok sh dim n) (hc : n.charts = [])
     (hzb : ∀ np ∈ n.parts, np.2.hasTopo = true → zeroBelow np.2.sizes = false)
     (hnt : ∀ np ∈ n.parts, np.2.noTopoEmpty) :
-    supported sh (dim : Int) (dim : Int) = true ∧
-    (∀ m, n.mesh = some m → m.wf sh dim = true ∧ (∀ s ∈ m.sizes, s < 2 ^ 64) ∧ zeroBelow m.sizes = false) ∧
+    supported sh (dim : Int) (n.wdim : Int) = true ∧
+    (∀ m, n.mesh = some m → m.wf sh dim n.wdim = true ∧ (∀ s ∈ m.sizes, s < 2 ^ 64) ∧ zeroBelow m.sizes = false) ∧
     (∀ np ∈ n.parts, PartOkFull sh dim np.1 np.2) ∧
     n.parts.Pairwise (fun a b => strLt a.1 b.1 = true) ∧
     (∀ p ∈ n.partitions, PartitionOk p) ∧
@@ -2778,14 +2780,7 @@ theorem parseMeshFile_printable (text : Str) (sh : Shape) (dim : Nat) (n : Node)
     (S2.LinesN_splitLines text).sub (S2.readRoot_rest_sub _ _ _ _ _ hroot)
   obtain ⟨_, hdim, hn, hmap, _⟩ := S2.parseBody_node_ok S2.NameOk_nil hN hbody
   refine ⟨?_, ?_, ?_, hn.partsSorted, ?_, hmap⟩
-  · subst hdim
-    have hsd : ((sd.toNat : Nat) : Int) = sd ∧ wd = sd := by
-      unfold supported at hsup
-      simp only [Bool.and_eq_true, Bool.or_eq_true, beq_iff_eq] at hsup
-      omega
-    rw [hsd.1]
-    rw [hsd.2] at hsup
-    exact hsup
+  · exact parseMeshFile_supported h
   · intro msh hm
     exact ⟨parseMeshFile_mesh_wf text sh dim n msh h hm, hn.mesh64 msh hm, hn.meshZB msh hm⟩
   · intro np hnp
@@ -2805,21 +2800,21 @@ theorem parse_print_parse (text : Str) (sh : Shape) (dim : Nat) (n : Node)
     (hnt : ∀ np ∈ n.parts, np.2.noTopoEmpty) :
     parseMeshFile (printMeshFile sh dim n) = .ok sh dim n := by
   obtain ⟨hs, hmesh, hp, hsorted, hpt, hmap⟩ := parseMeshFile_printable text sh dim n h hc hzb hnt
-  obtain ⟨mesh, parts, partitions, charts⟩ := n
+  obtain ⟨mesh, parts, partitions, charts, wd⟩ := n
   simp only at hc
   subst hc
   cases mesh with
   | none => simp at hm
   | some msh =>
     obtain ⟨hwf, h64, hzb'⟩ := hmesh msh rfl
-    exact parse_print_node_full sh dim msh parts partitions hs hwf h64 hzb' hp hsorted hpt hmap
+    exact parse_print_node_full sh dim wd msh parts partitions hs hwf h64 hzb' hp hsorted hpt hmap
 
 /-- `parseMeshFile_printable` without the `hzb` / `hnt` hypotheses: every accepted file without charts yields a
     printable node -/
 theorem parseMeshFile_printable_nocharts (text : Str) (sh : Shape) (dim : Nat) (n : Node)
     (h : parseMeshFile text = .ok sh dim n) (hc : n.charts = []) :
-    supported sh (dim : Int) (dim : Int) = true ∧
-    (∀ m, n.mesh = some m → m.wf sh dim = true ∧ (∀ s ∈ m.sizes, s < 2 ^ 64) ∧ zeroBelow m.sizes = false) ∧
+    supported sh (dim : Int) (n.wdim : Int) = true ∧
+    (∀ m, n.mesh = some m → m.wf sh dim n.wdim = true ∧ (∀ s ∈ m.sizes, s < 2 ^ 64) ∧ zeroBelow m.sizes = false) ∧
     (∀ np ∈ n.parts, PartOkFull sh dim np.1 np.2) ∧
     n.parts.Pairwise (fun a b => strLt a.1 b.1 = true) ∧
     (∀ p ∈ n.partitions, PartitionOk p) ∧
@@ -2857,7 +2852,7 @@ theorem parse_print_parse_noparent (text : Str) (sh : Shape) (dim : Nat) (n : No
 theorem parse_print_reparse (text : Str) (sh : Shape) (dim : Nat) (n : Node)
     (h : parseMeshFile text = .ok sh dim n) (hm : n.mesh = none) (hc : n.charts = []) :
     parseMeshFile (printMeshFile sh dim n) = .notype ∧
-    reparse sh dim (printMeshFile sh dim n) = .ok sh dim n := by
+    reparse sh dim n.wdim (printMeshFile sh dim n) = .ok sh dim n := by
   have hded : deductNames text = [] := by
     obtain ⟨m, iline, rest, sd, wd, hroot, hrt, _, hbody⟩ := S2.parseMeshFile_decomp h
     obtain ⟨_, _, st, n1, hscan, _, hl, _, hd⟩ := parseBody_ok_run hbody
@@ -2878,9 +2873,24 @@ theorem parse_print_reparse (text : Str) (sh : Shape) (dim : Nat) (n : Node)
     unfold supported at hs
     simp only [Bool.and_eq_true, Bool.or_eq_true, beq_iff_eq] at hs
     omega
-  obtain ⟨mesh, parts, partitions, charts⟩ := n
+  obtain ⟨mesh, parts, partitions, charts, wd⟩ := n
   simp only at hm hc
   subst hm hc
-  exact reparse_print_nomesh sh dim parts partitions hdim hp hsorted hpt
+  exact reparse_print_nomesh sh dim wd parts partitions hdim hp hsorted hpt
+
+/-- the mesh type of an accepted file is the one declared in the root markup: `dim` and `n.wdim` are the shape and
+    world dimension that `read_root_markup` reads from the `mesh` attribute of the first markup line -/
+theorem parseMeshFile_root_type {text : Str} {sh : Shape} {dim : Nat} {n : Node}
+    (h : parseMeshFile text = .ok sh dim n) :
+    ∃ m iline rest, readRoot (splitLines text) 0 = .ok (m, iline, rest) ∧
+      rootType iline m = .ok (some (sh, (dim : Int), (n.wdim : Int))) := by
+  obtain ⟨m, iline, rest, sd, wd, hroot, hrt, hsup, hbody⟩ := S2.parseMeshFile_decomp h
+  refine ⟨m, iline, rest, hroot, ?_⟩
+  have hd := (parseBody_ok_type hbody).2
+  have hw := parseBody_ok_wdim hbody
+  have hnn : (0 : Int) ≤ sd ∧ (0 : Int) ≤ wd := by
+    simp only [supported, Bool.or_eq_true, Bool.and_eq_true, beq_iff_eq] at hsup
+    omega
+  rw [hrt, hd, hw, Int.toNat_of_nonneg hnn.1, Int.toNat_of_nonneg hnn.2]
 
 end FeatModel.C11
